@@ -2,14 +2,20 @@
 import itertools
 import os
 import random
+import sys
 
+import lib
 from lib import Case, fmt_list
 
 PROP = "C20"
 DRIVER = "drv-c20"
 PROOF_MODULES = ["TetlProofs.C20.Props"]
 HARNESS = "harness/c20.cpp"
-HARNESS_FLAGS = ["-O0", "-g0"]          # ~600 template instantiations on each of the two libraries
+BASE_FLAGS = ["-O0", "-g0"]             # ~2000 template instantiations on each of the two libraries
+HARNESS_FLAGS = list(BASE_FLAGS)
+# harness/c20.cpp is compiled as NPARTS translation units in parallel (-DC20_PART=k) by run() below; check.py then compiles
+# main() (-DC20_PART=-1) and links them
+NPARTS = 24
 
 
 def _probe(code):
@@ -22,41 +28,106 @@ def _probe(code):
     return p.returncode == 0
 
 
-HARNESS_FLAGS.append("-DC20_HAS_IFN_MEMPTR=%d" % _probe(
+BASE_FLAGS.append("-DC20_HAS_IFN_MEMPTR=%d" % _probe(
     "#include <etl/functional.hpp>\nstruct S { int d; long q(int) & { return 0; } };\n"
     "etl::inplace_function<long(S&, int), 32> f{&S::q}; etl::inplace_function<int(S&), 32> g{&S::d};\n"
     "long use(S& s) { return f(s, 1) + g(s); }\n"))
+BASE_FLAGS.append("-DC20_HAS_BF_MEMPTR_RV=%d" % _probe(
+    "#include <etl/functional.hpp>\nstruct S { int d; long q(int) && { return 0; } long c(int) const&& { return 0; } };\n"
+    "long use(S s) { auto g = etl::bind_front(&S::q, s); auto const h = etl::bind_front(&S::c, s); auto m = etl::bind_front(&S::d, s);\n"
+    "  auto const n = etl::bind_front(&S::d, s); int v = etl::move(m)() + etl::move(n)(); return etl::move(g)(1) + etl::move(h)(2) + v; }\n"))
+HARNESS_FLAGS = list(BASE_FLAGS)
+
+
+def _build_parts():
+    """compile the translation units of the harness in parallel; returns the object files.  An object file is reused when
+    the preprocessed translation unit (every header of the tree under test expanded), the flags and the compiler are
+    byte-identical to those it was compiled from: any change of the library or of the harness gives a new key."""
+    import concurrent.futures as cf
+    import hashlib
+    os.makedirs(lib.BUILD, exist_ok=True)
+    cache = os.path.join(lib.BUILD, "c20_objcache")
+    os.makedirs(cache, exist_ok=True)
+    flags = list(lib.CXXFLAGS) + BASE_FLAGS
+    cxxv = lib.sh([lib.CXX, "--version"])[1]
+    src = os.path.join(lib.VERIF, HARNESS)
+
+    def one(k):
+        base = [lib.CXX] + flags + ["-DC20_PART=%d" % k, "-I", os.path.join(lib.REPO, "include"), "-I", os.path.join(lib.VERIF, "harness")]
+        rc, o, e = lib.sh(base + ["-E", src], timeout=600)
+        if rc != 0:
+            return None, rc, o[-200:] + e
+        key = hashlib.sha256((cxxv + "\0" + " ".join(flags) + "\0" + o).encode()).hexdigest()[:32]
+        out = os.path.join(cache, "part%d_%s.o" % (k, key))
+        if os.path.exists(out):
+            os.utime(out)
+            return out, 0, "cached"
+        tmp = out + ".%d.tmp" % os.getpid()
+        rc, o, e = lib.sh(base + ["-c", src, "-o", tmp], timeout=1800)
+        if rc == 0:
+            os.replace(tmp, out)
+        return out, rc, o + e
+
+    with cf.ThreadPoolExecutor(max_workers=NPARTS) as ex:
+        res = list(ex.map(one, range(NPARTS)))
+    bad = [r for r in res if r[1] != 0]
+    if bad:
+        raise lib.MachineryError("harness does not compile against %s:\n%s" % (lib.REPO, bad[0][2][-1500:]))
+    olds = sorted((os.path.join(cache, f) for f in os.listdir(cache)), key=os.path.getmtime)
+    for f in olds[:-8 * NPARTS]:
+        os.unlink(f)
+    return [r[0] for r in res]
+
+
+def run(ctx, replay=None):
+    """standard flow of check.py, with the translation units of the harness pre-compiled in parallel"""
+    global HARNESS_FLAGS
+    objs = _build_parts()
+    HARNESS_FLAGS = BASE_FLAGS + ["-DC20_PART=-1"] + objs
+    import check
+    return check.standard(sys.modules[__name__], ctx, replay)
+
+
 SOURCES = ["include/etl/_utility/pair.hpp", "include/etl/_tuple", "include/etl/_functional/invoke.hpp",
            "include/etl/_functional/inplace_function.hpp", "include/etl/_functional/function_ref.hpp",
            "include/etl/_functional/reference_wrapper.hpp", "include/etl/_functional/bind_front.hpp",
            "include/etl/_functional/not_fn.hpp", "include/etl/_utility/forward.hpp", "include/etl/_utility/forward_like.hpp"]
 RULE = ("Stateless lines: (pair cmp) every pair of pairs over {0,1,2} for int elements and over {0,1,NaN} for double elements, all six "
-        "relations; (pair value ops) 21 operations (default construction, construct from lvalues/rvalues, copy, move, converting "
-        "copy/move, copy/move/converting assignment, member/free/self swap, make_pair, get through the four reference qualifications, "
-        "structured binding) x all 36 combinations of element kinds {int, instrumented copy+move class, move-only, copy-only, int&, "
-        "int const}; (tuple) equality of every pair of tuples over {0,1,2} with arity 0..3, 17 value operations x 6 uniform kinds x "
-        "arity 1..3 (tuples of mixed element kinds are not generated), apply through the four tuple categories x the four callee "
-        "categories, tuple_cat of 1..3 tuples of arity 1..2 of kinds {int, instrumented, move-only, copy-only} as lvalues and rvalues, "
-        "make_from_tuple; (invoke) function / function pointer / lambda / function object in four categories with 0..2 forwarded "
-        "arguments in all category combinations / member function and member data pointers through object, derived object, "
-        "reference_wrapper, pointer, pointer to derived; (function_ref incl. const-rvalue arguments; reference_wrapper call/copy/rebind; "
-        "bind_front with 0..2 bound arguments - each a plain object bound from an lvalue or an rvalue, or a reference_wrapper - and "
-        "0..2 call arguments, the wrapper called directly, through a copy and through a move-constructed wrapper; not_fn called "
-        "directly, through a copy, through a moved wrapper; inplace_function around a pointer to member function / data) every wrapper "
-        "qualification x every argument category combination.  Observed per line: values, what a move leaves in the source (-1 for "
-        "instrumented elements), the number of copies, the call log (target, category of the target object, per argument the "
-        "category seen by a forwarding parameter, whether it arrived as a reference_wrapper, and its value) and the result.  "
-        "Histories on inplace_function: 4 named objects (one of smaller capacity), "
-        "closures of 5 sizes up to the capacity, trivially and non-trivially copyable; exhaustive: every sequence of 3 (thorough: 4) "
-        "operations from an alphabet of 20 (construct from closure / empty / copy / move, copy/move/self assignment, reset, swap, "
-        "self-swap, call), each followed by a call of every object; random (VERIF_SEED): histories of 10-40 operations over all "
-        "operations, objects and closure types.  Observed per line: result or bad_function_call, emptiness of every object, number "
-        "of live closure objects (lifetime registry), the call log.  A case is non-trivial when its expected output is not `n/a` and, "
-        "for a history, when it contains a call of a non-empty object; distinct = distinct case text.")
+        "relations; (pair value ops) 23 operations (default construction, construct from lvalues/rvalues, copy, move, converting "
+        "copy/move, copy/move/converting assignment, member/free/self swap, make_pair, get<I> through the four reference "
+        "qualifications, get<T> through lvalue / const lvalue / rvalue, structured binding) x all 36 combinations of element kinds "
+        "{int, instrumented copy+move class, move-only, copy-only, int&, int const}; (tuple) equality of every pair of tuples over "
+        "{0,1,2} with arity 0..3; 31 value operations (the pair's, plus make_from_tuple, forward_as_tuple, tie, tie(...) = t, "
+        "construction from a pair; converting constructors / assignments widen / narrow the int elements and keep the others) x 56 "
+        "element-kind lists: every list of length 1 and 2 (all 36 combinations), the 6 uniform triples and 8 mixed triples in "
+        "which every kind occurs at every position; apply through the four tuple categories x the four callee categories and with "
+        "a pointer to member function / data whose object is the first element; tuple_cat of 1..3 tuples of arity 1..2 of every "
+        "uniform kind and of 7 mixed-kind combinations, handed over as lvalues, const lvalues, rvalues and const rvalues; (invoke) "
+        "function / function pointer / lambda / function object in four categories with 0..2 forwarded arguments in all category "
+        "combinations / member function and member data pointers through object, derived object, reference_wrapper, pointer, "
+        "pointer to derived; (function_ref<R(Args...)> and <R(Args...) noexcept> incl. const-rvalue arguments, called directly, "
+        "through a copy, after an assignment; reference_wrapper call / copy / rebind / ref(reference_wrapper), "
+        "cref(reference_wrapper); bind_front with 0..2 bound arguments - each a plain object bound from an lvalue or an rvalue, or a "
+        "reference_wrapper - and 0..2 call arguments, the wrapper called directly, through a copy and through a move-constructed "
+        "wrapper, and bind_front of a pointer to member with the object / a pointer / a pointer to const / a reference_wrapper "
+        "bound; not_fn called directly, through a copy, through a moved wrapper, around a pointer to member, and the stateless "
+        "not_fn<ConstFn>() around a function, a member function and a data member; inplace_function around a pointer to member "
+        "function / data) every wrapper qualification x every argument category combination.  Observed per line: values, what a "
+        "move leaves in the source (-1 for instrumented elements), the number of copies, the call log (target, category of the "
+        "target object, per argument the category seen by a forwarding parameter, whether it arrived as a reference_wrapper, and "
+        "its value) and the result.  Histories on inplace_function: 4 named objects (one of smaller capacity), closures of 5 sizes "
+        "up to the capacity, trivially and non-trivially copyable; exhaustive: every sequence of 3 (thorough: 4) operations from an "
+        "alphabet of 21 (construct from closure / empty / copy / move, copy/move/self assignment, reset, member swap, free swap, "
+        "self-swap, call), each followed by a call of every object, operator bool, == nullptr and != nullptr; random (VERIF_SEED): "
+        "histories of 10-40 operations over all operations, objects and closure types.  Observed per line: result or "
+        "bad_function_call, emptiness of every object, number of live closure objects (lifetime registry), the call log.  A case is "
+        "non-trivial when its expected output is not `n/a` and, for a history, when it contains a call of a non-empty object; "
+        "distinct = distinct case text.")
 ASSUMPTIONS = ["libstdc++ 12 std::pair / std::tuple / std::invoke / std::reference_wrapper / std::bind_front / std::not_fn / std::function "
                "are the reference for spec validation (R2); std::function stands in for the owning wrapper: a moved-from std::function "
                "is empty in libstdc++ (the standard leaves it unspecified), as the spec requires of inplace_function",
-               "function_ref has no std counterpart in C++20: the reference is the direct call P0792 prescribes",
+               "function_ref has no std counterpart in C++20: the reference is the direct call P0792 prescribes; the stateless "
+               "not_fn<ConstFn>() (C++26) has none in libstdc++ 12: the reference is !std::invoke(ConstFn, args...)",
                "for element types with unordered values (double with NaN) the pair relations are claimed only outside the input class "
                "Spec.unorderedPair (known finding F-C20-pair-rel-unordered; the class is exact: pair_rels_dbl_iff)",
                "an object is not copy- or move-constructed from itself (precondition `Spec.valid`)"]
@@ -72,17 +143,21 @@ SEARCH_CAP = 400000
 
 KINDS = [0, 1, 2, 3, 4, 5]
 PAIR_OPS = ["dflt", "ctor", "ctorr", "copy", "move", "assign", "massign", "swap", "fswap", "selfswap", "make", "maker",
-            "get", "getc", "getr", "getcr", "sb", "conv", "convr", "cassign", "cmassign"]
-TUPLE_OPS = ["dflt", "ctor", "ctorr", "copy", "move", "swap", "selfswap", "make", "maker", "get", "getc", "getr", "getcr",
-             "mft", "mftr", "fwd", "tie"]
+            "get", "getc", "getr", "getcr", "sb", "conv", "convr", "cassign", "cmassign", "gett", "gettr"]
+TUPLE_OPS = ["dflt", "ctor", "ctorr", "copy", "move", "assign", "massign", "swap", "fswap", "selfswap", "make", "maker",
+             "get", "getc", "getr", "getcr", "sb", "gett", "gettr", "mft", "mftr", "fwd", "tie", "tieassign", "tiemassign",
+             "conv", "convr", "cassign", "cmassign", "convp", "convpr"]
+# element-kind lists of the tuples (the lists harness/c20.cpp tuple_kinds instantiates): every list of length 1 and 2, the
+# uniform triples and eight mixed triples in which every kind occurs at every position
+TUPLE_KINDS = ([[k] for k in KINDS] + [[k1, k2] for k1 in KINDS for k2 in KINDS] + [[k, k, k] for k in KINDS]
+               + [[0, 2, 4], [1, 3, 5], [4, 1, 2], [5, 0, 3], [2, 5, 1], [3, 4, 0], [1, 2, 3], [0, 4, 5]])
+# tuple_cat of tuples of different kinds (harness/c20.cpp tcat_line): (kinds of the flattened elements, arities)
+TCAT_MIXED = [([0, 2, 4, 3, 5], [2, 1, 2]), ([1, 2, 1], [1, 2]), ([5, 4, 1, 3, 0], [2, 2, 1]), ([3, 1, 4, 5], [2, 2]),
+              ([4, 4, 1], [1, 2]), ([5, 0, 5, 2], [1, 2, 1]), ([1, 0, 3], [2, 1])]
 TYPEQ = ["make_pair_unwraps_refwrap", "make_tuple_unwraps_refwrap", "tuple_cat_value_types", "tuple_cat_keeps_ref",
          "tuple_cat_keeps_nested", "tuple_copy_assignable", "tuple_move_assignable", "tuple_get_by_type",
          "tuple_structured_binding", "pair_ref_copy_assignable", "pair_get_by_type", "tuple_converting_ctor"]
-TYPE_FINDINGS = {"tuple_cat_keeps_ref": "F-C20-tuple-cat-decays",
-                 "tuple_cat_keeps_nested": "F-C20-tuple-cat-decays", "tuple_copy_assignable": "F-C20-tuple-not-assignable",
-                 "tuple_move_assignable": "F-C20-tuple-not-assignable", "tuple_get_by_type": "F-C20-tuple-get-by-type",
-                 "tuple_structured_binding": "F-C20-tuple-structured-binding",
-                 "pair_get_by_type": "F-C20-pair-get-by-type", "tuple_converting_ctor": "F-C20-tuple-converting-ctors"}
+TYPE_FINDINGS = {"tuple_cat_keeps_ref": "F-C20-tuple-cat-decays", "tuple_cat_keeps_nested": "F-C20-tuple-cat-decays"}
 NAN = 9
 
 
@@ -96,12 +171,13 @@ def ifn_alphabet():
     ops += ["ifn op=ctor_copy i=0 j=1", "ifn op=ctor_copy i=1 j=0", "ifn op=ctor_move i=0 j=1", "ifn op=ctor_move i=1 j=0"]
     ops += ["ifn op=assign i=0 j=1", "ifn op=assign i=1 j=0", "ifn op=assign i=0 j=0"]
     ops += ["ifn op=massign i=0 j=1", "ifn op=massign i=1 j=0", "ifn op=massign i=0 j=0"]
-    ops += ["ifn op=assign_null i=0", "ifn op=assign_fn i=1 ty=3 id=2", "ifn op=swap i=0 j=1", "ifn op=swap i=0 j=0", "ifn op=fswap i=1 j=1"]
+    ops += ["ifn op=assign_null i=0", "ifn op=assign_fn i=1 ty=3 id=2", "ifn op=swap i=0 j=1", "ifn op=swap i=0 j=0", "ifn op=fswap i=1 j=1",
+            "ifn op=fswap i=1 j=0"]
     ops += ["ifn op=call i=0 x=1", "ifn op=call i=1 x=2"]
     return ops
 
 
-TAIL = ["ifn op=call i=0 x=5", "ifn op=call i=1 x=6", "ifn op=bool i=0", "ifn op=eqnull i=1"]
+TAIL = ["ifn op=call i=0 x=5", "ifn op=call i=1 x=6", "ifn op=bool i=0", "ifn op=eqnull i=1", "ifn op=nenull i=0"]
 
 
 def random_history(rnd):
@@ -139,7 +215,7 @@ def random_history(rnd):
         elif r < 0.94:
             lines.append("ifn op=call i=%d x=%d" % (i, rnd.randint(0, 9)))
         else:
-            lines.append("ifn op=%s i=%d" % (rnd.choice(["bool", "eqnull"]), i))
+            lines.append("ifn op=%s i=%d" % (rnd.choice(["bool", "eqnull", "nenull"]), i))
     for k in range(4):
         lines.append("ifn op=call i=%d x=%d" % (k, k))
     return lines
@@ -186,12 +262,25 @@ def generate(tier, seed):
                 add("tuple op=eq a=%s b=%s" % (fmt_list(a), fmt_list(b)), "tuple/eq")
     # ---- tuple value operations
     for op in TUPLE_OPS:
-        for k in KINDS:
-            for n in (1, 2, 3):
-                for base in ([1, 2, 3], [0, 2, 0]) + (([7, 7, 1],) if thorough else ()):
-                    a = base[:n]
-                    b = [x + 3 for x in a]
-                    add("tuple op=%s t=%s a=%s b=%s" % (op, fmt_list([k] * n), fmt_list(a), fmt_list(b)), "tuple/" + op)
+        for ks in TUPLE_KINDS:
+            n = len(ks)
+            if op in ("convp", "convpr") and n != 2:
+                continue
+            for base in ([1, 2, 3], [0, 2, 0]) + (([7, 7, 1],) if thorough else ()):
+                a = base[:n]
+                b = [x + 3 for x in a]
+                add("tuple op=%s t=%s a=%s b=%s" % (op, fmt_list(ks), fmt_list(a), fmt_list(b)),
+                    "tuple/" + op + ("" if len(set(ks)) == 1 else "-mixed"))
+    for _ in range(10000 if thorough else 1000):
+        ks = rnd.choice(TUPLE_KINDS)
+        op = rnd.choice(TUPLE_OPS)
+        if op in ("convp", "convpr") and len(ks) != 2:
+            continue
+        add("tuple op=%s t=%s a=%s b=%s" % (op, fmt_list(ks), fmt_list([rnd.randint(0, 99) for _ in ks]),
+                                            fmt_list([rnd.randint(0, 99) for _ in ks])), "tuple/random")
+    for q in range(4):          # apply(pointer to member, tuple): the object is the first element
+        add("tuple op=apply f=memfn q=%d a=[%d]" % (q, 3 + q), "tuple/apply-memptr")
+        add("tuple op=apply f=memdata q=%d v=%d" % (q, 7 + q), "tuple/apply-memptr")
     for n in (1, 2, 3):
         for q in range(4):          # category of the tuple
             for c in range(4):      # category of the callee (forward<F>(f))
@@ -199,18 +288,22 @@ def generate(tier, seed):
                     add("tuple op=apply q=%d c=%d a=%s" % (q, c, fmt_list(base[:n])), "tuple/apply")
     # ---- tuple_cat
     shapes = [list(t) for m in (1, 2, 3) for t in itertools.product((1, 2), repeat=m)]
-    for t in (0, 1, 2, 3):
-        for q in (0, 2):
-            if t == 2 and q == 0:
-                continue
+    for t in KINDS:
+        for q in range(4):      # the tuples are handed over as lvalues, const lvalues, rvalues, const rvalues
             for ts in shapes:
                 v = list(range(1, sum(ts) + 1))
-                add("tcat t=%d q=%d ts=%s v=%s" % (t, q, fmt_list(ts), fmt_list(v)), "tcat")
+                add("tcat k=%s q=%d ts=%s v=%s" % (fmt_list([t] * sum(ts)), q, fmt_list(ts), fmt_list(v)), "tcat")
+    for ks, ts in TCAT_MIXED:
+        for q in range(4):
+            add("tcat k=%s q=%d ts=%s v=%s" % (fmt_list(ks), q, fmt_list(ts), fmt_list(list(range(1, len(ks) + 1)))), "tcat/mixed")
     for _ in range(3000 if thorough else 300):
-        t = rnd.choice((0, 1, 2, 3))
-        q = 2 if t == 2 else rnd.choice((0, 2))
-        ts = rnd.choice(shapes)
-        add("tcat t=%d q=%d ts=%s v=%s" % (t, q, fmt_list(ts), fmt_list([rnd.randint(0, 99) for _ in range(sum(ts))])), "tcat/random")
+        if rnd.random() < 0.3:
+            ks, ts = rnd.choice(TCAT_MIXED)
+        else:
+            ts = rnd.choice(shapes)
+            ks = [rnd.choice(KINDS)] * sum(ts)
+        add("tcat k=%s q=%d ts=%s v=%s" % (fmt_list(ks), rnd.randrange(4), fmt_list(ts), fmt_list([rnd.randint(0, 99) for _ in ks])),
+            "tcat/random")
     # ---- invoke
     for f in ("fn", "fptr", "lam"):
         for x in ([1, 2], [0, 9]):
@@ -228,9 +321,10 @@ def generate(tier, seed):
                     add("invoke f=memfn c=%d o=%s x=[%d]" % (c, o, 3 + c), "invoke/memfn")
     # ---- function_ref, inplace_function argument forwarding
     for c in (0, 1):
-        for act in ("call", "copy"):
+        for act in ("call", "copy", "rebind"):
             for xc in (0, 1, 2, 3):
                 add("fref f=fob c=%d act=%s x=[1,2,3] xc=[%d]" % (c, act, xc), "fref/fob")
+                add("fref f=fob c=%d act=%s ne=1 x=[1,2,3] xc=[%d]" % (c, act, xc), "fref/fob-noexcept")
     for f in ("fn", "fptr", "lam"):
         for act in ("call", "copy"):
             add("fref f=%s c=0 act=%s x=[4,2] xc=[]" % (f, act), "fref/" + f)
@@ -241,10 +335,10 @@ def generate(tier, seed):
         add("ifn2 f=memdata x=[] v=%d" % v, "ifn2/memptr")
     # ---- reference_wrapper, bind_front, not_fn
     for cst in (0, 1):
-        for act in ("call", "copy", "rebind"):
+        for act in ("call", "copy", "rebind", "reref"):
             for n in (0, 1, 2):
                 for xc in cat_lists(n):
-                    add("rw cst=%d act=%s x=%s xc=%s" % (cst, act, fmt_list([3, 5][:n]), fmt_list(xc)), "rw")
+                    add("rw cst=%d act=%s x=%s xc=%s" % (cst, act, fmt_list([3, 5][:n]), fmt_list(xc)), "rw" if act != "reref" else "rw/reref")
     for q in range(4):
         for bl in (0, 1):
             for nb in (0, 1, 2):
@@ -261,12 +355,28 @@ def generate(tier, seed):
                                     "bf/fob" if plain else ("bf/fob-ref" if any(br) else "bf/fob-" + act))
         for nb in (0, 1, 2):
             add("bf f=fn q=%d bl=0 b=%s x=%s" % (q, fmt_list([1, 2][:nb]), fmt_list([3, 5][:2 - nb])), "bf/fn")
+        for o in ("obj", "ptr", "cptr", "refw"):     # bind_front(pointer to member, object | pointer | reference_wrapper)
+            add("bf f=memfn q=%d bl=0 b=[] o=%s x=[%d]" % (q, o, 3 + q), "bf/memptr")
+            add("bf f=memdata q=%d bl=0 b=[] o=%s x=[] v=%d" % (q, o, 6 + q), "bf/memptr")
+        for c in range(4):                           # not_fn(pointer to member)(object of category c, ...)
+            for p in (0, 1):
+                add("nf f=memfn c=%d q=%d p=%d x=[%d]" % (c, q, p, 2 + c), "nf/memptr")
+            for v in (0, 5):
+                add("nf f=memdata c=%d q=%d v=%d" % (c, q, v), "nf/memptr")
         for p in (0, 1):
             for act in ("call", "copy", "move"):
                 for n in ((0, 1, 2) if act == "call" else (0, 1)):
                     for xc in cat_lists(n):
                         add("nf q=%d p=%d act=%s x=%s xc=%s" % (q, p, act, fmt_list([3, 5][:n]), fmt_list(xc)),
                             "nf" if act == "call" else "nf/" + act)
+    for p in (0, 1):                                 # the stateless not_fn<ConstFn>()
+        for x in ([3, 4], [0, 9]):
+            add("nfc f=fn p=%d x=%s" % (p, fmt_list(x)), "nfc")
+        for c in range(4):
+            add("nfc f=memfn c=%d p=%d x=[%d]" % (c, p, 4 + c), "nfc")
+    for c in range(4):
+        for v in (0, 7):
+            add("nfc f=memdata c=%d v=%d" % (c, v), "nfc")
     for q in TYPEQ:
         add("typeq q=%s" % q, "typeq")
     # ---- inplace_function histories: every sequence of `depth` operations of the alphabet
@@ -328,99 +438,119 @@ def group_of(case):
 
 CLAIMED = True
 TECHNIQUE = ("Lean 4 proofs about a hand model + differential testing.  Proved without bounds: the lexicographic pair relations, tuple "
-             "equality, tuple_cat, and the inplace_function vtable-thunk machine (with object lifetimes) refining an owner semantics for all "
-             "histories.  The forwarding wrappers (invoke, reference_wrapper, function_ref, bind_front, not_fn, apply) are one-line headers "
-             "whose model is a transcription: their call-once theorems are immediate and the evidence for them is the exhaustive "
-             "small-scope correspondence run against the code and against libstdc++.  Value categories as types (decltype) are NOT "
-             "proved in Lean: they are compared with libstdc++ by a compile-time static_assert matrix; their run-time projection "
-             "(which overload / parameter category the instrumented target sees) is data of the model and compared on every line.")
-LEVEL_TEXT = ("pair and tuple members are modelled as the member-wise expansion the headers write (construction, copy/move, assignment, "
-              "swap, get, the relational operators as written through operator< only, the tuple equality fold with its arity-0 branch, "
-              "tuple_cat as the left fold of pairwise concatenation, apply / make_from_tuple as index-sequence expansions with checked "
-              "element reads); invoke as its three-way member-pointer dispatch; reference_wrapper, function_ref, bind_front (bound "
-              "arguments stored decayed, a reference_wrapper kept as a wrapper), not_fn as the calls they forward to; inplace_function as "
-              "its vtable thunks (copy, relocate, destroy, invoke) acting on storage cells that hold a live callable or nothing, where "
-              "reading a destroyed object or constructing over a live one is an error.  Lean 4 proves without bounds: (a) the six pair "
-              "relations equal the lexicographic three-way comparison for every element order synthesised from an asymmetric <, form a "
-              "strict total order with its derived relations for strict total element orders, and for double elements equal std::pair's "
-              "exactly on the inputs outside the NaN class of the known finding (and differ on every input inside it); (b) tuple == never "
-              "fails and is list equality for every arity including 0; (c) tuple_cat of one or more tuples is their concatenation and never "
-              "reads out of range; (d) for every history of construct/copy/move/assign/swap/reset/call on inplace_function (any length, any "
-              "number of objects, including self-assignment and self-swap) the thunk machine never fails (no use of a destroyed closure, no "
-              "construction over a live one), keeps vtable and storage consistent, leaves no temporary alive, and refines the abstract "
-              "owner semantics: copies call an equivalent target, a move empties the source, swap exchanges, an empty object reports "
-              "bad_function_call and logs nothing, a call logs exactly one entry.  Also stated and proved, but with little proof content "
-              "because model and specification are the same few lines: (e) the member-wise pair/tuple operations (default/copy/move "
-              "construction, assignment, swap, get, make_from_tuple) equal their map/sum form for every arity and kind list (bookkeeping "
-              "identities: the recursion is a map); (f) the outcome of a call through invoke, reference_wrapper, function_ref, bind_front, "
-              "not_fn and apply satisfies the predicate Spec.CalledOnce (exactly one log entry, for the wrapped target, through the "
-              "prescribed object category, with the given arguments - a bound reference_wrapper still a wrapper -, result handed back) - a "
-              "case split on the callee kind.  For (e) and (f) the weight is carried by the correspondence run: model and implementation "
-              "are executed on the same lines under ASan/UBSan with instrumented elements and callables on every run, and the executable "
-              "spec is validated against libstdc++ on the same lines.")
+             "equality, tuple_cat, the inplace_function vtable-thunk machine (with object lifetimes, free swap and nullptr comparison) "
+             "refining an owner semantics for all histories, and reference_wrapper / function_ref as objects (pointer members executed "
+             "forwards = target resolved backwards, for all histories of construction, copy and assignment).  The forwarding wrappers "
+             "(invoke, reference_wrapper, function_ref, bind_front, not_fn, apply - also around pointers to members) are one-line "
+             "headers whose model is a transcription: their call-once theorems are immediate and the evidence for them is the "
+             "exhaustive small-scope correspondence run against the code and against libstdc++.  Value categories as types (decltype) "
+             "are NOT proved in Lean: they are compared with libstdc++ by a compile-time static_assert matrix; their run-time "
+             "projection (which overload / parameter category the instrumented target sees) is data of the model and compared on "
+             "every line.")
+LEVEL_TEXT = ("pair and tuple members are modelled as the member-wise expansion the headers write (construction, copy/move, assignment "
+              "- tuple assignment, get<T>, the converting constructors and structured bindings exist since the fix commits of this "
+              "round -, swap, get, the relational operators as written through operator< only, the tuple equality fold with its "
+              "arity-0 branch, tuple_cat as the left fold of pairwise concatenation, apply / make_from_tuple as index-sequence "
+              "expansions with checked element reads); invoke as its three-way member-pointer dispatch; reference_wrapper and "
+              "function_ref as objects holding one pointer (copy and assignment copy it) whose call forwards to the designated "
+              "target; bind_front (bound arguments stored decayed, a reference_wrapper kept as a wrapper, a bound object of a pointer "
+              "to member handed over with the wrapper's qualification), not_fn and not_fn<ConstFn>() as the calls they forward to; "
+              "inplace_function as its vtable thunks (copy, relocate, destroy, invoke) acting on storage cells that hold a live "
+              "callable or nothing, where reading a destroyed object or constructing over a live one is an error.  Lean 4 proves "
+              "without bounds: (a) the six pair relations equal the lexicographic three-way comparison for every element order "
+              "synthesised from an asymmetric <, form a strict total order with its derived relations for strict total element "
+              "orders, and for double elements equal std::pair's exactly on the inputs outside the NaN class of the known finding "
+              "(and differ on every input inside it); (b) tuple == never fails and is list equality for every arity including 0; (c) "
+              "tuple_cat of one or more tuples is their concatenation and never reads out of range; (d) for every history of "
+              "construct/copy/move/assign/member swap/free swap/reset/call/compare-with-nullptr on inplace_function (any length, any "
+              "number of objects, including self-assignment and self-swap) the thunk machine never fails (no use of a destroyed "
+              "closure, no construction over a live one), keeps vtable and storage consistent, leaves no temporary alive, and refines "
+              "the abstract owner semantics: copies call an equivalent target, a move empties the source, swap (member or free) "
+              "exchanges, an empty object reports bad_function_call, compares equal to nullptr and logs nothing, a call logs exactly "
+              "one entry; (d') for every history of construction, copy and assignment of reference_wrapper / function_ref objects the "
+              "pointer member the model computes forwards is the target the specification resolves backwards from the most recent "
+              "operation (refPtrs_designates), a copy designates the source's target, an assignment rebinds only the assigned wrapper, "
+              "and a call through any wrapper is exactly one call of the designated target.  Also stated and proved, but with little "
+              "proof content because model and specification are the same few lines: (e) the member-wise pair/tuple operations "
+              "(default/copy/move construction, assignment, swap, get, make_from_tuple - the converting constructors and assignments "
+              "of pair and tuple are the same member-wise expansions, their element conversions int->long / short->int preserve "
+              "values) equal their map/sum form for every arity and kind list (bookkeeping identities: the recursion is a map); (f) "
+              "the outcome of a call through invoke, reference_wrapper, function_ref, bind_front, not_fn, not_fn<ConstFn>() and apply "
+              "- also around a pointer to member - satisfies the predicate Spec.CalledOnce (exactly one log entry, for the wrapped "
+              "target, through the prescribed object category, with the given arguments - a bound reference_wrapper still a wrapper "
+              "-, result handed back) - a case split on the callee kind.  For (e) and (f) the weight is carried by the correspondence "
+              "run: model and implementation are executed on the same lines under ASan/UBSan with instrumented elements and callables "
+              "on every run, and the executable spec is validated against libstdc++ on the same lines.")
 LEVEL_NOTE = ("Trusted: Lean kernel + propext/Classical.choice/Quot.sound; the hand model's fidelity outside the explored inputs; g++-12/ASan; "
-              "libstdc++ as oracle.  Value-category preservation as a type-level fact (decltype) is not carried by the value-level model and "
-              "not proved: it is checked by a compile-time static_assert matrix against libstdc++ (coverage.unproved_observed) and, where the "
-              "headers are known to differ, reported at run time as KNOWN-FINDING lines.  Not generated (see coverage.unproved_observed): "
-              "tuples of mixed element kinds, const-qualified callables in not_fn, function_ref<R(Args...) noexcept>, apply / bind_front / "
-              "not_fn over member pointers, ref(reference_wrapper), tuple_cat() without arguments.")
+              "libstdc++ as oracle (not_fn<ConstFn>() and function_ref have no libstdc++ 12 counterpart: the oracle is the direct "
+              "!INVOKE / call).  Value-category preservation as a type-level fact (decltype) is not carried by the value-level model "
+              "and not proved: it is checked by a compile-time static_assert matrix against libstdc++ (coverage.unproved_observed) "
+              "and, where the headers are known to differ, reported at run time as KNOWN-FINDING lines.  Not generated (see "
+              "coverage.unproved_observed): tuples of arity 3 beyond the 14 instantiated kind lists, tuple_cat() without arguments, "
+              "get<T&>(pair&&) (does not compile in libstdc++ 12).")
 UNPROVED_OBSERVED = [
     "value-category / element-type preservation (decltype): static_assert matrix in harness/c20.cpp — get<I> on pair and tuple for all 49 "
     "combinations of {int, move-only, copy-only, int&, int const, int&&, instrumented} x four reference qualifications against std::get; "
-    "tuple_element / tuple_size; copy/move constructibility and assignability traits of pair against std::pair; forward and forward_like "
-    "against the standard's definition; result types of invoke (member data through object/pointer/reference_wrapper), apply, "
-    "reference_wrapper, bind_front, not_fn, make_tuple, make_pair, forward_as_tuple, tie, tuple_cat, make_from_tuple — compile-time "
-    "differential testing, no theorem",
+    "tuple_element / tuple_size; copy/move constructibility and assignability traits of pair and (per instantiated kind list) of tuple "
+    "against std; constructibility / convertibility of the converting tuple constructors and assignments against std::tuple; forward and "
+    "forward_like against the standard's definition; result types of invoke (member data through object/pointer/reference_wrapper), "
+    "apply, reference_wrapper, ref(reference_wrapper), bind_front, not_fn, make_tuple, make_pair, forward_as_tuple, tie, tuple_cat, "
+    "make_from_tuple; function_ref<R(Args...) noexcept>::operator() is noexcept — compile-time differential testing, no theorem",
     "the run-time projection of value categories (which ref-qualified operator() overload and which parameter category the instrumented "
     "target sees, whether an argument arrives as a reference_wrapper; moved-from residues; copy counts) is modelled and compared on "
     "every line; the theorems treat it as data",
     "live closure count and lifetime registry of the harness (non-trivially copyable closures only): observed on every history line",
-    "NOT exercised at all (neither generated nor modelled): tuples whose elements have different kinds (value operations use uniform "
-    "kinds; the 36 kind combinations are covered for pair only); tuple_cat of reference / const / mixed-kind tuples and of const-lvalue "
-    "or const-rvalue tuples; not_fn / bind_front around a const callable or a member pointer; apply with a member pointer; "
-    "function_ref<R(Args...) noexcept>; ref(reference_wrapper) / cref(reference_wrapper); tuple_cat() with no argument (hard error in "
-    "etl, tuple<> in std)",
+    "aliasing of get<T> / structured bindings / tie / forward_as_tuple (the names designate the elements themselves): address comparisons "
+    "in the harness (`!alias`), no model",
+    "NOT exercised at all (neither generated nor modelled): tuples of arity 3 outside the 14 instantiated kind lists and of arity > 3; "
+    "tuple_cat of more than 3 tuples, of pairs / arrays, and tuple_cat() with no argument (hard error in etl, tuple<> in std); "
+    "get<T>(pair&&) / get<T>(tuple&&) with a reference element (libstdc++ 12 does not compile the pair form); allocator-extended and "
+    "piecewise construction (absent from etl)",
 ]
 CORRESPONDENCE_ONLY = [
-    "make_pair / make_tuple / forward_as_tuple / tie / structured binding of pair: value-level identity in the model (copyAll / moveAll / getAll); "
-    "the reference binding itself (aliasing) is checked by the harness only",
-    "converting pair constructors and assignments (pair<U1,U2>): modelled by the same member-wise definitions as the non-converting ones",
-    "reference_wrapper copy / rebind and function_ref copy: the copy designates the same target; modelled as the same call",
+    "make_pair / make_tuple / forward_as_tuple / tie / structured binding of pair and tuple: value-level identity in the model (copyAll / "
+    "moveAll / getAll); the reference binding itself (aliasing) is checked by the harness only",
     "copy and move construction of the bind_front and not_fn wrappers (act=copy|move lines): the new wrapper calls an equivalent target; "
     "modelled as the same call, the extra copies of bound arguments are counted by the driver",
-    "inplace_function: operator==/!= with nullptr are modelled as operator bool; free swap as member swap; closure size and trivial "
-    "copyability are data of the model (ty) with no effect on it, exercised by the harness over 10 closure types",
+    "inplace_function: closure size and trivial copyability are data of the model (ty) with no effect on it, exercised by the harness "
+    "over 10 closure types",
     "inplace_function<R(Args...)> argument forwarding for class-type parameters and around a pointer to member (ifn2 lines): modelled by "
     "functionRefCall with an lvalue target",
+    "function_ref<R(Args...) noexcept> (ne=1 lines): the same class template as function_ref<R(Args...)>, no separate model",
     "the number of copies made while binding arguments (bind_front), while copying a wrapper, by tuple_cat (driver: copyAll / moveAll over "
-    "the flattened elements) and while passing a by-value argument (function_ref, inplace_function): computed by the driver from the "
-    "argument categories, no theorem",
+    "the flattened elements, chosen by the category of the argument tuples) and while passing a by-value argument (function_ref, "
+    "inplace_function): computed by the driver from the argument categories, no theorem",
     "Lemmas.invoke_spec / refWrap_spec / functionRef_spec / bindFront_spec / notFn_spec / apply_spec (model = executable spec): "
     "transcription checks between two copies of the same few lines, deliberately not counted as property theorems",
 ]
+P = "Tetl.C20.Props."
 THEOREMS = {
-    "pair": ["Tetl.C20.Props.pair_rels_eq_synth3", "Tetl.C20.Props.pair_rels_dbl_iff", "Tetl.C20.Props.pair_rels_dbl_partial",
-             "Tetl.C20.Props.pair_lt_iff", "Tetl.C20.Props.pair_trichotomy", "Tetl.C20.Props.pair_derived", "Tetl.C20.Props.pair_lt_trans",
-             "Tetl.C20.Props.defaultAll_eq", "Tetl.C20.Props.copyAll_eq", "Tetl.C20.Props.moveAll_eq",
-             "Tetl.C20.Props.assignAll_eq", "Tetl.C20.Props.moveAssignAll_eq", "Tetl.C20.Props.swapAll_eq", "Tetl.C20.Props.getAll_eq"],
-    "tuple": ["Tetl.C20.Props.tuple_eq_iff", "Tetl.C20.Props.defaultAll_eq", "Tetl.C20.Props.copyAll_eq", "Tetl.C20.Props.moveAll_eq",
-              "Tetl.C20.Props.swapAll_eq", "Tetl.C20.Props.getAll_eq", "Tetl.C20.Props.makeFromTuple_eq", "Tetl.C20.Props.apply_once"],
-    "tcat": ["Tetl.C20.Props.tuple_cat_eq"],
-    "invoke": ["Tetl.C20.Props.invoke_once", "Tetl.C20.Props.invoke_memdata"],
-    "fref": ["Tetl.C20.Props.functionRef_once"], "ifn2": ["Tetl.C20.Props.functionRef_once"],
-    "rw": ["Tetl.C20.Props.refWrap_once"], "bf": ["Tetl.C20.Props.bindFront_once"], "nf": ["Tetl.C20.Props.notFn_once"],
-    "ifn": ["Tetl.C20.Props.step_refines", "Tetl.C20.Props.run_refines", "Tetl.C20.Props.run_never_errors",
-            "Tetl.C20.Props.empty_never_calls", "Tetl.C20.Props.call_once"],
-    "new": ["Tetl.C20.Props.run_refines"],
+    "pair": [P + n for n in ("pair_rels_eq_synth3", "pair_rels_dbl_iff", "pair_rels_dbl_partial", "pair_lt_iff", "pair_trichotomy",
+                             "pair_derived", "pair_lt_trans", "defaultAll_eq", "copyAll_eq", "moveAll_eq", "assignAll_eq",
+                             "moveAssignAll_eq", "swapAll_eq", "getAll_eq")],
+    "tuple": [P + n for n in ("tuple_eq_iff", "defaultAll_eq", "copyAll_eq", "moveAll_eq", "assignAll_eq", "moveAssignAll_eq",
+                              "swapAll_eq", "getAll_eq", "makeFromTuple_eq", "apply_once", "applyMember_once", "applyMember_data")],
+    "tcat": [P + "tuple_cat_eq", P + "copyAll_eq", P + "moveAll_eq"],
+    "invoke": [P + "invoke_once", P + "invoke_memdata"],
+    "fref": [P + "functionRef_once", P + "functionRef_object_once", P + "refPtrs_designates", P + "ref_copy_equivalent",
+             P + "ref_assign_rebinds"],
+    "ifn2": [P + "functionRef_once"],
+    "rw": [P + "refWrap_once", P + "refWrap_object_once", P + "refPtrs_designates", P + "ref_copy_equivalent", P + "ref_assign_rebinds"],
+    "bf": [P + "bindFront_once", P + "bindFrontMember_once"],
+    "nf": [P + "notFn_once", P + "notFnOf_once", P + "notFnOf_data"],
+    "nfc": [P + "notFnOf_once", P + "notFnOf_data"],
+    "ifn": [P + n for n in ("step_refines", "run_refines", "run_never_errors", "empty_never_calls", "call_once", "fswap_exchanges",
+                            "null_comparison")],
+    "new": [P + "run_refines"],
 }
 
 # defects met while building this check that live in files owned by other properties (not repaired here; the harness works around them)
 NOTES_FOR_OTHER_PROPERTIES = [
-    "C15: etl::is_constructible<T, A> uses the functional cast T(declval<A>()), a C-style cast for one argument: "
-    "is_constructible_v<int&, etl::tuple<int&>&> is true, so etl::tuple<int&> r(nonconst_tuple) selects the element-wise constructor "
-    "and does not compile (harness copies from a const tuple)",
     "C15: etl::is_nothrow_swappable<T const> is a hard error instead of false (reached through the noexcept specification of pair::swap), "
     "so std::is_swappable_v<etl::pair<int, int const>> does not compile",
     "C15: etl::unwrap_ref_decay has its condition inverted and the primary etl::unwrap_reference is undefined "
     "(bind_front does not use it any more: it stores decay_t<BoundArgs>)",
+    "toolchain: g++-12 does not accept `&f != nullptr` as a constant expression when f is an inline (weak) function or an in-class "
+    "defined member function, so etl::not_fn<&f>() (static_assert(ConstFn != nullptr)) only compiles for targets with internal "
+    "linkage or non-inline definitions; the harness uses targets in an unnamed namespace",
 ]
